@@ -17,7 +17,7 @@ META = dict(
                 "[lo, hi], pairwise disjoint when replace=False - for EVERY outcome of the generator. Reachability queries (sat): "
                 "sizes lo, hi and a size strictly between occur, and every variable 0..p-1 occurs, for some generator outcome.",
     bounds=dict(quick="p in 1..5; K in 0..3 symbolic; size an integer in 0..6 or a range 0 <= lo <= hi <= 6 (symbolic), or a 1-/3-tuple; replace in {True, False}; all generator outcomes",
-                thorough="p in 1..6; K in 0..4; sizes 0..7"),
+                thorough="p in 1..6; K in 0..4; sizes 0..7; plus a CrossHair audit (second engine) of the size / range / disjointness / ValueError contract at p <= 3, K <= 2, sizes <= 4"),
     outside=["negative sizes / K, lo > hi", "the distribution (uniformity) of the sampled sizes and targets", "p > 6"],
     stubs=["numpy -> symnp", "numpy.random.default_rng -> contract stub (integers, choice)"],
     assumptions=["z3 sound (linear integer arithmetic)", "numpy's Generator.integers / choice satisfy their documented contract"],
@@ -85,6 +85,10 @@ def h_targets(ctx):
                 reach.append(('a size strictly inside the range occurs', G.Z(G.And(G.T(lo < n0), G.T(n0 < hi)))))
                 for v in range(p):
                     reach.append(('variable %d occurs' % v, G.Z(G.Or([G.T(x == v) for iv in res for x in iv]))))
+                    if not replace:
+                        reach.append(('variable %d occurs without replacement' % v, G.Z(G.Or([G.T(x == v) for iv in res for x in iv]))))
+                        reach.append(('variable %d occurs without replacement although not all variables are used' % v,
+                                      G.Z(G.And(G.Or([G.T(x == v) for iv in res for x in iv]), G.T(hi * K < p)))))
                 if len(res) > 1 and replace:
                     reach.append(('with replacement a variable can occur in two interventions',
                                   G.Z(G.Or([G.T(a == b) for a in res[0] for b in res[1]]))))
@@ -213,10 +217,40 @@ def _replay_reach(rec):
                         hit |= (lo < n0 < hi)
                     elif name.startswith('variable'):
                         v = int(name.split()[1])
+                        if 'without replacement' in name and replace:
+                            continue
+                        if 'although not all' in name and not hi * K < p:
+                            continue
                         hit |= any(v in iv for iv in r)
                     elif name.startswith('with replacement'):
                         hit |= (replace and len(r) > 1 and bool(set(r[0]) & set(r[1])))
     return (not hit, 'p=%d: "%s" %s in %d real calls over K, (lo, hi), replace and 60 seeds each' % (p, name, 'occurred' if hit else 'NEVER occurred', tried))
+
+
+def audit():
+    """thorough tier: the same contract re-checked by CrossHair (its own symbolic ints / lists, its own path
+    exploration) on the real source with a stand-in generator driven by a symbolic list of picks"""
+    import os
+    import subprocess
+    import sys
+    import time
+    verif = os.path.dirname(os.path.dirname(os.path.abspath(__file__)))
+    env = dict(os.environ)
+    env['PYTHONPATH'] = os.path.join(verif, '.deps')
+    t0 = time.time()
+    try:
+        r = subprocess.run([sys.executable, '-m', 'crosshair', 'check', '--report_all', '--per_condition_timeout', '400',
+                            os.path.join(verif, 'audit', 'c12_crosshair.py')], capture_output=True, text=True, env=env, timeout=1000, cwd=verif)
+        out = (r.stdout + r.stderr).strip().splitlines()
+    except subprocess.TimeoutExpired:
+        return dict(engine='CrossHair', result='timeout (inconclusive audit)', disagreement=False, seconds=round(time.time() - t0, 1))
+    lines = [l.split('c12_crosshair.py:')[-1] for l in out if 'c12_crosshair.py' in l]
+    confirmed = sum(1 for l in lines if 'Confirmed over all paths' in l)
+    errors = [l for l in lines if ' error: ' in l]
+    res = 'Confirmed over all paths for %d of 2 conditions' % confirmed if not errors else 'counterexample reported'
+    return dict(engine='CrossHair 0.0.110 (crosshair check --report_all --per_condition_timeout 400)', result=res, detail=lines,
+                bounds='p <= 3, K <= 2, size / (lo, hi) <= 4, 4 generator picks in 0..5; generator = stand-in driven by a symbolic list',
+                disagreement=bool(errors), seconds=round(time.time() - t0, 1))
 
 
 def obligations(tier):
@@ -224,7 +258,9 @@ def obligations(tier):
     ob = []
     for p in range(1, pmax + 1):
         cubes = [dict(p=p, style=st, replace=rp, Kmax=Kmax, smax=smax) for st in ('int', 'range', 'bad1', 'bad3') for rp in (True, False)]
-        reach = ['size = lo occurs', 'variable 0 occurs', 'variable %d occurs' % (p - 1)]
+        reach = ['size = lo occurs', 'variable 0 occurs', 'variable %d occurs' % (p - 1)] + ['variable %d occurs without replacement' % v for v in range(p)]
+        if p >= 2:
+            reach += ['variable %d occurs without replacement although not all variables are used' % v for v in range(p)]
         if p >= 2:
             reach += ['size = hi occurs (lo < hi)', 'with replacement a variable can occur in two interventions'] + ['variable %d occurs' % v for v in range(p)]
         if p >= 3:
